@@ -312,13 +312,15 @@ def design_values(rng, k):
     return sorted(v, reverse=True)
 
 
-def redesign_svd(rng, ht, flatL, flatR):
-    """Same legs, sector-wise U diag(designed) V: spectrum with exact (to rounding) degeneracies and zeros."""
+def redesign_svd(rng, ht, flatL, flatR, values=None):
+    """Same legs, sector-wise U diag(designed) V: spectrum with exact (to rounding) degeneracies and zeros
+    (or values(k, i) for the i-th sector when given)."""
     sec = Sectors(ht, flatL, flatR, 1, ht.n)
     M = np.zeros_like(sec.M)
-    for t, (r, c) in sec.sec.items():
+    for i, (t, (r, c)) in enumerate(sorted(sec.sec.items())):
         u, s, v = np.linalg.svd(sec.matrix(t), full_matrices=False)
-        M[np.ix_(r, c)] = (u * np.array(design_values(rng, len(s)))[None, :]) @ v
+        d = design_values(rng, len(s)) if values is None else values(len(s), i)
+        M[np.ix_(r, c)] = (u * np.array(d)[None, :]) @ v
     dims = [ht.legs[i].dim for i in tuple(flatL) + tuple(flatR)]
     arr = np.transpose(M.reshape(dims), np.argsort(tuple(flatL) + tuple(flatR)))
     return from_dense(ht.sym, ht.legs, ht.n, arr, ht.dtype, keys=sorted(ht.blocks))
